@@ -51,6 +51,9 @@ def form_text(sess, form):
 
 
 def describe(sess, mm):
+    if mm['kind'] == 'abort':
+        return 'session %s (%s): host process aborted (%s); reproduce: %s' % (
+            sess['id'], sess.get('kind'), sess.get('abort'), sess.get('reproduce'))
     return 'session %s form %d [%s/%s] %s: %s  expected %s got %s' % (
         sess['id'], mm['form'], mm['kind'], mm['run'], mm['what'], form_text(sess, mm['form'])[:200],
         json.dumps(mm.get('exp'))[:160], json.dumps(mm.get('got'))[:160])
